@@ -55,6 +55,29 @@ class Namespace(typing.Generic[T]):
             outer = outer.outer_nsp
         return None
 
+    def _find_origin_of_free_name(
+        self, name: str
+    ) -> typing.Optional["NamespaceFunction"]:
+        """
+        Find the outer function namespace where the free variable `name` was born.
+        Returns None if the name is global
+        (e.g. it is declared global in the nearest outer function which uses the name)
+        """
+        outer = self.outer_nsp
+        while not isinstance(outer, NamespaceGlobal):
+            if isinstance(outer, NamespaceFunction):
+                try:
+                    symbol = outer.symt.lookup(name)
+                except KeyError:
+                    pass
+                else:
+                    if symbol.is_local():
+                        return outer
+                    if symbol.is_global():
+                        return None
+            outer = outer.outer_nsp
+        return None
+
     def get_assign(self, name: str, value_expr: expr) -> expr:
         """
         In different namespaces,
@@ -235,7 +258,10 @@ class NamespaceFunction(Namespace[symtable.Function]):
             if not self.symt.lookup(name).is_global():
                 return False
         except KeyError:
-            return False
+            # The name is only used in a lambda or a comprehension in this function.
+            # (it would be a free variable of this function if it is not global)
+            if self._find_origin_of_free_name(name) is not None:
+                return False
         return self._find_outer_function_with_local(name) is not None
 
     def get_load_name(self, name: str) -> expr:
@@ -375,11 +401,10 @@ class NamespaceClass(Namespace[symtable.Class]):
         if self.comp_stack:
             # Inside a lambda or a comprehension, the class members are invisible.
             # The name is a variable of an outer function or a global
-            outer_function = self._find_outer_function_with_local(name)
-            if (
-                outer_function is not None
-                and name in outer_function.inner_nonlocal_names
-            ):
+            outer_function = self._find_origin_of_free_name(name)
+            if outer_function is None:
+                return self._get_load_global(name)
+            if name in outer_function.inner_nonlocal_names:
                 return Subscript(
                     value=outer_function.nonlocal_dict_expr,
                     slice=Constant(value=name),
